@@ -216,7 +216,16 @@ func CheckEpisode(ep Episode) (*Violation, []callResult) {
 			if r.Before != r.After {
 				return mk("input-modified", c.Writer, fmt.Sprintf("call #%d (%s, failing destination) changed the cue list it was given", i, c.Writer)), results
 			}
-			continue // outcome of a write into a failing destination is C18's business
+			// whether the error is reported is C18's business; but a call that claims success (a transient fault it
+			// recovered from) must have handed over exactly the bytes it hands over without the fault
+			if r.Class == "ok" && ref.Class == "ok" {
+				mo, _ := stlDateFields(c.Writer, s, r.Out, r.ClockGot)
+				mr, _ := stlDateFields(c.Writer, s, ref.Out, ref.ClockGot)
+				if !bytes.Equal(mo, mr) {
+					return mk("nondeterministic-output", c.Writer, fmt.Sprintf("call #%d (%s) returned nil although its destination failed once (%+v) and handed over %d bytes that differ from the %d bytes written without the fault", i, c.Writer, *c.SinkFault, len(mo), len(mr))), results
+				}
+			}
+			continue
 		}
 		if r.Before != r.After {
 			return mk("input-modified", c.Writer, fmt.Sprintf("call #%d (%s) changed the cue list it was given (canonical rendering incl. aliasing differs before/after)", i, c.Writer)), results
@@ -333,6 +342,11 @@ func c19Sources(cfg Config, lim c19Limits) ([]ListSource, error) {
 			src.Ops = genOps(lr)
 		}
 		srcs = append(srcs, src)
+	}
+	// one very long list (more than 512 cues): size thresholds in writers
+	{
+		d := corpus.Large("srt", root.Derive("c19-verylong", 0), 60000)
+		srcs = append(srcs, ListSource{Doc: d.Name, Reader: "srt", Data: d.Data})
 	}
 	// a few big lists: hundreds of cues, dozens of styles and regions (threshold-triggered code paths)
 	for i := 0; i < lim.lists/100+2; i++ {
@@ -473,7 +487,7 @@ func RunC19(cfg Config) (*ShardResult, error) {
 				}
 				if sr.Bool(0.3) { // a failed attempt first, then the same writer again
 					calls = append(calls, Invocation{Writer: api.WriterFormats[wi], Env: env,
-						SinkFault: &simio.WriteFault{Offset: sr.PickInt(0, 1, 100, 1024, 1100, 1500), Kind: simio.WriteFaultKinds[sr.Intn(len(simio.WriteFaultKinds))], Short: sr.Bool(0.5)}})
+						SinkFault: &simio.WriteFault{Offset: sr.PickInt(0, 1, 100, 1024, 1100, 1500), Kind: simio.WriteFaultKinds[sr.Intn(len(simio.WriteFaultKinds))], Short: sr.Bool(0.5), Transient: sr.Bool(0.5)}})
 				}
 				calls = append(calls, Invocation{Writer: api.WriterFormats[wi], Env: env, Sink: sr.Pick("", "", "rich")})
 			}
